@@ -616,7 +616,8 @@ impl Connection {
             _ => 0,
         };
         let token = match self.state {
-            State::Unconnected => unreachable!(),
+            // Closing (rejecting) before any handshake: no token is known.
+            State::Unconnected => None,
             // Signal support for the token protocol.
             State::Connecting => Some(TOKEN_NONE),
             State::Pending(ref pending) => pending.token,
